@@ -162,7 +162,7 @@ static const struct { const char *name; size_t off; int w; } knob_tab[] = {
 	KN(stall_ord[0], 8), KN(stall_ord[1], 8), KN(stall_ord[2], 8), KN(stall_ord[3], 8),
 	KN(stall_code[0], 4), KN(stall_code[1], 4), KN(stall_code[2], 4), KN(stall_code[3], 4),
 	KN(tick_ns, 8), KN(ncpu, 4), KN(weakcas_den, 4), KN(unusual_mask, 4), KN(unusual_den, 4),
-	KN(futexspur_den, 4), KN(semeintr_den, 4), KN(epeintr_den, 4), KN(sigmiss_den, 4), KN(iofault_den, 4), KN(iofault_mask, 4),
+	KN(futexspur_den, 4), KN(semeintr_den, 4), KN(epeintr_den, 4), KN(sigmiss_den, 4), KN(clkread_ns, 4), KN(iofault_den, 4), KN(iofault_mask, 4),
 	KN(alloc_den, 4), KN(thrfail_den, 4), KN(timefault_den, 4), KN(timefault_mask, 4), KN(wake_random, 4),
 	KN(step_cap, 8), KN(start_up_ns, 8), KN(boot_off_ns, 8), KN(wall_off_ns, 8),
 #undef KN
@@ -234,6 +234,7 @@ static void knobs_from_seed(uint64_t seed, unsigned cfg) {
 		if (KR(4) == 0) { k->timefault_den = 400; k->timefault_mask = 1; }
 		if (KR(3) == 0) k->sigmiss_den = 3;
 	}
+	if (KR(2)) k->clkread_ns = 1 + (int)KR(97);
 	if (PROP && PROP->tune) PROP->tune(k, cfg, g);
 #undef KR
 }
